@@ -19,7 +19,10 @@
 (* when its last line has been consumed.                                    *)
 (*                                                                         *)
 (* Line formats (field a = action):                                         *)
-(*  Submit  id ok post q bc          an EVENT / add_event call               *)
+(*  Submit  id ok post q bc [auth_obs]  an EVENT / add_event call (auth_obs: *)
+(*                                   the event was built by the relay itself *)
+(*                                   - add_service_event - and this is the   *)
+(*                                   oracle's verdict on what it built)      *)
 (*  Writer  post q                   one writer transaction                  *)
 (*  Gc      T post q                 a collection pass                       *)
 (*  Delete  id post q                storage.delete_event                    *)
@@ -96,7 +99,11 @@ MutStep ==
             /\ UNCHANGED <<wq, bcast, last>>
        ELSE /\ Adopt(Line)
             /\ bad' = bad \cup {<<v[1], l, v[2]>> : v \in (IF Conforms(Line) THEN {} ELSE {<<"Conform", S!SubjectOfStep>>})
-                                                       \cup (IF Line.a = "Fault" THEN {} ELSE S!StepVerdict)}
+                                                       \cup (IF Line.a = "Fault" THEN {} ELSE S!StepVerdict)
+                                                       \* an internal service event (built and signed by the relay itself, then submitted
+                                                       \* like any other): what the relay built must be authentic to the oracle
+                                                       \cup (IF "auth_obs" \in DOMAIN Line /\ ~Line.auth_obs
+                                                             THEN {<<"C03_ServiceEventAuthentic", {Line.id}>>} ELSE {})}
 
 Q == INSTANCE Query
 
